@@ -374,4 +374,416 @@ theorem advance_ok {p : Pat} {cfg : Cfg} {seen : List Event} {key : String} {r :
       · rw [if_pos hk]; exact viaTransitions_ok h hninv hsub hlt hkey
       · rw [if_neg hk]; exact viaEpsilon_ok h hninv hsub hlt hkey
 
+/-! ## the run loop (`swap_remove` only drops or moves runs) -/
+
+theorem mem_swapRemove {l : List Run} {i : Nat} {x : Run} (h : x ∈ swapRemove l i) : x ∈ l := by
+  unfold swapRemove at h
+  split at h
+  · have h1 := (List.dropLast_subset _ h)
+    rcases List.mem_or_eq_of_mem_set h1 with h2 | h2
+    · exact h2
+    · subst h2
+      cases hl : l.getLast? with
+      | none => simp [List.getLast?_eq_none_iff] at hl; subst hl; simp at *
+      | some y => simp; exact List.mem_of_getLast? hl
+  · exact (List.dropLast_subset _ h)
+
+/-- what `swap_remove(i)` does to the runs not yet visited: the last one moves to the front -/
+def rot (rest : List Run) : List Run :=
+  match rest.getLast? with
+  | none => []
+  | some l => l :: rest.dropLast
+
+theorem rot_perm (rest : List Run) : (rot rest).Perm rest := by
+  unfold rot
+  cases h : rest.getLast? with
+  | none => simp [List.getLast?_eq_none_iff] at h; subst h; simp
+  | some y =>
+    have hne : rest ≠ [] := by intro hn; subst hn; simp at h
+    have := List.dropLast_concat_getLast hne
+    have hy : rest.getLast hne = y := by
+      rw [List.getLast?_eq_some_getLast hne] at h; simpa using h
+    rw [hy] at this
+    simp only []
+    have h2 : (y :: rest.dropLast).Perm (rest.dropLast ++ [y]) := by
+      simpa using (List.perm_append_comm (l₁ := [y]) (l₂ := rest.dropLast))
+    rw [this] at h2; exact h2
+
+theorem rot_length (rest : List Run) : (rot rest).length = rest.length := (rot_perm rest).length_eq
+
+theorem swapRemove_take (l : List Run) (i : Nat) (h : i < l.length) : (swapRemove l i).take i = l.take i := by
+  unfold swapRemove
+  split
+  · rw [List.dropLast_eq_take, List.take_take, List.take_set]
+    simp
+    rw [Nat.min_eq_left (by omega)]
+    exact List.set_eq_of_length_le (by simp; omega)
+  · rw [List.dropLast_eq_take, List.take_take]; congr 1; omega
+
+theorem swapRemove_drop (l : List Run) (i : Nat) (h : i < l.length) : (swapRemove l i).drop i = rot (l.drop (i+1)) := by
+  unfold swapRemove rot
+  split
+  · rename_i h1
+    rw [List.getLast?_drop]
+    simp [show ¬ l.length ≤ i + 1 by omega]
+    cases hl : l.getLast? with
+    | none => simp [List.getLast?_eq_none_iff] at hl; subst hl; simp at h
+    | some y =>
+      simp
+      apply List.ext_getElem?
+      intro n
+      simp [List.dropLast_eq_take, List.getElem?_take, List.getElem?_drop, List.getElem?_set]
+      cases n with
+      | zero => simp; omega
+      | succ m => simp; grind
+  · have : l.drop (i+1) = [] := by simp; omega
+    rw [this]; simp
+    omega
+
+theorem take_set_succ (l : List Run) (i : Nat) (x : Run) (h : i < l.length) :
+    (l.set i x).take (i+1) = l.take i ++ [x] := by
+  rw [List.take_set, List.take_succ_eq_append_getElem h, List.set_append]
+  simp [List.length_take, Nat.min_eq_left (Nat.le_of_lt h)]
+
+theorem drop_set_succ (l : List Run) (i : Nat) (x : Run) : (l.set i x).drop (i+1) = l.drop (i+1) := by
+  rw [List.drop_set_of_lt (by omega)]
+
+/-- the run loop over (visited, pending) instead of (vector, index) -/
+def loop2 (p : Pat) (cfg : Cfg) (e : Event) : (done pending : List Run) → (acc : List Match) → List Run × List Match
+  | done, [], acc => (done, acc)
+  | done, r :: rest, acc =>
+    if r.invalidated then loop2 p cfg e done (rot rest) acc
+    else match advance p cfg r e with
+      | .continue r' => loop2 p cfg e (done ++ [r']) rest acc
+      | .complete m => loop2 p cfg e done (rot rest) (acc ++ [m])
+      | .completeAndContinue r' m => loop2 p cfg e (done ++ [r']) rest (acc ++ [m])
+      | .noMatch => loop2 p cfg e (done ++ [r]) rest acc
+termination_by _ pending _ => pending.length
+decreasing_by all_goals simp [rot_length]
+
+theorem processRuns_eq_loop2 (p : Pat) (cfg : Cfg) (e : Event) (runs : List Run) (i : Nat) (acc : List Match) :
+    processRuns p cfg e runs i acc = loop2 p cfg e (runs.take i) (runs.drop i) acc := by
+  fun_induction processRuns p cfg e runs i acc with
+  | case1 runs i acc hi r hinv ih =>
+    rw [ih, swapRemove_take _ _ hi, swapRemove_drop _ _ hi, List.drop_eq_getElem_cons hi]
+    conv => rhs; unfold loop2
+    simp [r] at hinv ⊢
+    try simp [hinv]
+  | case2 runs i acc hi r hinv r' hadv' ih =>
+    rw [ih, take_set_succ _ _ _ hi, drop_set_succ, List.drop_eq_getElem_cons hi]
+    conv => rhs; unfold loop2
+    simp [r] at hinv hadv' ⊢
+    try simp [hinv, hadv']
+  | case3 runs i acc hi r hinv m hadv' ih =>
+    rw [ih, swapRemove_take _ _ hi, swapRemove_drop _ _ hi, List.drop_eq_getElem_cons hi]
+    conv => rhs; unfold loop2
+    simp [r] at hinv hadv' ⊢
+    try simp [hinv, hadv']
+  | case4 runs i acc hi r hinv r' m hadv' ih =>
+    rw [ih, take_set_succ _ _ _ hi, drop_set_succ, List.drop_eq_getElem_cons hi]
+    conv => rhs; unfold loop2
+    simp [r] at hinv hadv' ⊢
+    try simp [hinv, hadv']
+  | case5 runs i acc hi r hinv hadv' ih =>
+    rw [ih, List.take_succ_eq_append_getElem hi, List.drop_eq_getElem_cons hi]
+    conv => rhs; unfold loop2
+    simp [r] at hinv hadv' ⊢
+    try simp [hinv, hadv']
+  | case6 runs i acc hi =>
+    have : runs.drop i = [] := by simp; omega
+    rw [this, List.take_of_length_le (by omega)]
+    unfold loop2; rfl
+
+theorem mem_rot {rest : List Run} {x : Run} : x ∈ rot rest ↔ x ∈ rest := (rot_perm rest).mem_iff
+
+/-- loop rule: `Q` holds of the pending runs, `Q'` of the visited ones, `M` of the matches. -/
+theorem loop2_rule {p : Pat} {cfg : Cfg} {e : Event} (Q Q' : Run → Prop) (M : Match → Prop)
+    (hQQ' : ∀ r, Q r → Q' r)
+    (hadv : ∀ r, Q r → r.invalidated = false →
+      match advance p cfg r e with
+      | .continue r' => Q' r'
+      | .complete m => M m
+      | .completeAndContinue r' m => Q' r' ∧ M m
+      | .noMatch => True)
+    (done pending : List Run) (acc : List Match) :
+    (∀ r ∈ done, Q' r) → (∀ r ∈ pending, Q r) → (∀ m ∈ acc, M m) →
+    (∀ r ∈ (loop2 p cfg e done pending acc).1, Q' r) ∧ (∀ m ∈ (loop2 p cfg e done pending acc).2, M m) := by
+  fun_induction loop2 p cfg e done pending acc with
+  | case1 done acc => intro hd _ hm; exact ⟨hd, hm⟩
+  | case2 done r rest acc hinv ih =>
+    intro hd hp hm
+    exact ih hd (fun x hx => hp x (List.mem_cons_of_mem _ (mem_rot.mp hx))) hm
+  | case3 done r rest acc hinv r' hadv' ih =>
+    intro hd hp hm
+    have := hadv r (hp r (List.mem_cons_self)) (by simpa using hinv)
+    rw [hadv'] at this
+    apply ih _ (fun x hx => hp x (List.mem_cons_of_mem _ hx)) hm
+    intro x hx
+    rcases List.mem_append.mp hx with h2 | h2
+    · exact hd x h2
+    · have : x = r' := by simpa using h2
+      subst this; assumption
+  | case4 done r rest acc hinv m hadv' ih =>
+    intro hd hp hm
+    have := hadv r (hp r (List.mem_cons_self)) (by simpa using hinv)
+    rw [hadv'] at this
+    apply ih hd (fun x hx => hp x (List.mem_cons_of_mem _ (mem_rot.mp hx)))
+    intro x hx
+    rcases List.mem_append.mp hx with h2 | h2
+    · exact hm x h2
+    · have : x = m := by simpa using h2
+      subst this; assumption
+  | case5 done r rest acc hinv r' m hadv' ih =>
+    intro hd hp hm
+    have := hadv r (hp r (List.mem_cons_self)) (by simpa using hinv)
+    rw [hadv'] at this
+    apply ih _ (fun x hx => hp x (List.mem_cons_of_mem _ hx))
+    · intro x hx
+      rcases List.mem_append.mp hx with h2 | h2
+      · exact hm x h2
+      · have hxm : x = m := by simpa using h2
+        subst hxm; exact this.2
+    · intro x hx
+      rcases List.mem_append.mp hx with h2 | h2
+      · exact hd x h2
+      · have hxr : x = r' := by simpa using h2
+        subst hxr; exact this.1
+  | case6 done r rest acc hinv hadv' ih =>
+    intro hd hp hm
+    apply ih _ (fun x hx => hp x (List.mem_cons_of_mem _ hx)) hm
+    intro x hx
+    rcases List.mem_append.mp hx with h2 | h2
+    · exact hd x h2
+    · have hxr : x = r := by simpa using h2
+      subst hxr; exact hQQ' _ (hp _ (List.mem_cons_self))
+
+/-! ## a run that is done yields a genuine match -/
+
+theorem after_done {steps : List Step} {i : Nat} (hi : i + 1 = steps.length) (done : List Entry) :
+    After steps i done [] = true := by
+  unfold After
+  have hlt : i < steps.length := by omega
+  have hs : steps[i]? = some steps[i] := List.getElem?_eq_getElem hlt
+  rw [hs]
+  simp only []
+  have hnil : steps.drop (i + 1) = [] := List.drop_eq_nil_of_le (by omega)
+  by_cases hk : steps[i].kleene = true
+  · rw [if_pos hk, drop_cons_of_get hs, hnil]
+    unfold explains; simp [hk]
+  · rw [if_neg hk, hnil]
+    unfold explains; rfl
+
+theorem genuine_of_done {p : Pat} {seen : List Event} {key : String} {r : Run}
+    (h : RunInv p seen key r) (hi : r.invalidated = false) (hl : p.isLast r.pos = true) :
+    Genuine p seen r.result = true := by
+  have hne := h.expl.ne_nil
+  unfold Genuine Run.result
+  simp only [Bool.and_eq_true]
+  refine ⟨⟨⟨⟨?_, ?_⟩, ?_⟩, ?_⟩, ?_⟩
+  · exact List.isSublist_iff_sublist.mpr h.sub
+  · have := explains_of_expl h.expl [] (after_done (by simpa [Pat.isLast] using hl) _)
+    simpa using this
+  · cases hst : r.stack with
+    | nil => exact absurd hst hne
+    | cons en rest =>
+      simp only [List.all_eq_true]
+      intro x hx
+      have h1 := h.part x (by rw [hst]; exact List.mem_cons_of_mem _ hx)
+      have h2 := h.part en (by rw [hst]; exact List.mem_cons_self)
+      simp [h1, h2]
+  · unfold noNegBetween
+    cases hh : r.stack.head? with
+    | none => rfl
+    | some f =>
+      cases hg : r.stack.getLast? with
+      | none => rfl
+      | some l =>
+        simp only [List.all_eq_true]
+        intro g hgm
+        by_cases hc : f.ev.idx < g.idx
+        · have := h.neg hi g hgm (fun f' hf' => by rw [hh] at hf'; cases hf'; exact hc)
+          simp [this]
+        · simp [hc]
+  · simp [h.capsEq]
+
+/-! ## the engine step -/
+
+/-- the C01 invariant of a reachable engine state -/
+def EngInv (p : Pat) (seen : List Event) (s : Eng) : Prop := ∀ k, ∀ r ∈ s.parts k, RunInv p seen k r
+
+theorem EngInv_init (p : Pat) : EngInv p [] Eng.init := by
+  intro k r hr; simp [Eng.init] at hr
+
+theorem tryStart_inv {p : Pat} {seen : List Event} {e : Event} {r : Run} (h : tryStart p e = some r)
+    (hlt : ∀ g ∈ seen, g.idx < e.idx) :
+    RunInv p (seen ++ [e]) (keyOf p e) r ∧ r.invalidated = false ∧ r.pos = 0 := by
+  unfold tryStart at h
+  cases hs : p.steps with
+  | nil => simp [hs] at h
+  | cons s0 rest =>
+    simp only [hs] at h
+    by_cases hm : matchesState s0 e [] = true
+    · rw [if_pos hm] at h
+      cases h
+      refine ⟨?_, rfl, rfl⟩
+      constructor
+      · simp [Run.push]
+      · exact push_caps _ _ _ rfl
+      · show Expl p.steps ([] ++ [⟨e, s0.alias⟩]) 0
+        exact Expl.start (by simp [hs]) (stepOk_first hm)
+      · intro en hen
+        have : en = ⟨e, s0.alias⟩ := by simpa [Run.push] using hen
+        subst this; rfl
+      · intro _ g hg hfirst
+        have h1 := hfirst ⟨e, s0.alias⟩ (by simp [Run.push])
+        simp only at h1
+        rcases List.mem_append.mp hg with hg | hg
+        · have := hlt g hg; omega
+        · have : g = e := by simpa using hg
+          subst this; omega
+    · rw [if_neg hm] at h; cases h
+
+theorem markNeg_stack (p : Pat) (e : Event) (r : Run) : (markNeg p e r).stack = r.stack := by
+  unfold markNeg; split <;> rfl
+
+theorem stepEngine_ok {p : Pat} {cfg : Cfg} {seen : List Event} {s : Eng} {e : Event}
+    (hfrag : p.inFragment = true) (hlt : ∀ g ∈ seen, g.idx < e.idx) (h : EngInv p seen s) :
+    EngInv p (seen ++ [e]) (stepEngine p cfg s e).1 ∧
+    ∀ m ∈ (stepEngine p cfg s e).2, Genuine p (seen ++ [e]) m = true := by
+  -- after `check_global_negations`
+  have hmarked : ∀ k, ∀ r ∈ (s.parts k).map (markNeg p e),
+      RunInv p (seen ++ [e]) k r ∧ (r.stack.map (·.ev)).Sublist seen := by
+    intro k r hr
+    obtain ⟨r0, hr0, rfl⟩ := List.mem_map.mp hr
+    exact ⟨(h k r0 hr0).mark hlt, by rw [markNeg_stack]; exact (h k r0 hr0).sub⟩
+  -- the run loop on the event's partition
+  have hloop := loop2_rule (p := p) (cfg := cfg) (e := e)
+    (fun r => RunInv p (seen ++ [e]) (keyOf p e) r ∧ (r.stack.map (·.ev)).Sublist seen)
+    (fun r => RunInv p (seen ++ [e]) (keyOf p e) r)
+    (fun m => Genuine p (seen ++ [e]) m = true)
+    (fun r hr => hr.1)
+    (by
+      intro r hr hinv
+      have := advance_ok (cfg := cfg) hfrag hr.1 hinv hr.2 hlt rfl
+      cases hadv : advance p cfg r e with
+      | «continue» r' => rw [hadv] at this; exact this.1
+      | complete m =>
+        rw [hadv] at this
+        obtain ⟨r'', h1, h2, h3, h4⟩ := this
+        subst h4; exact genuine_of_done h1 h2 h3
+      | completeAndContinue r' m =>
+        rw [hadv] at this
+        obtain ⟨h1, h2, h3, h4⟩ := this
+        subst h4; exact ⟨h1, genuine_of_done h1 h2 h3⟩
+      | noMatch => trivial)
+    [] ((s.parts (keyOf p e)).map (markNeg p e)) []
+    (by simp) (hmarked _) (by simp)
+  have hpr := processRuns_eq_loop2 p cfg e ((s.parts (keyOf p e)).map (markNeg p e)) 0 []
+  simp only [List.take_zero, List.drop_zero] at hpr
+  rw [← hpr] at hloop
+  unfold stepEngine
+  simp only []
+  generalize processRuns p cfg e ((s.parts (keyOf p e)).map (markNeg p e)) 0 [] = res at hloop
+  obtain ⟨runs', ms⟩ := res
+  simp only at hloop ⊢
+  -- the other partitions keep their (marked) runs
+  have hother : ∀ (f : List Run), (∀ r ∈ f, RunInv p (seen ++ [e]) (keyOf p e) r) →
+      EngInv p (seen ++ [e]) ⟨fun k => if k = keyOf p e then f else (s.parts k).map (markNeg p e), s.dropped⟩ ∧ True := by
+    intro f hf
+    refine ⟨?_, trivial⟩
+    intro k r hr
+    simp only at hr
+    by_cases hk : k = keyOf p e
+    · subst hk; rw [if_pos rfl] at hr; exact hf r hr
+    · rw [if_neg hk] at hr; exact (hmarked k r hr).1
+  cases hts : tryStart p e with
+  | none =>
+    simp only []
+    exact ⟨(hother runs' hloop.1).1, hloop.2⟩
+  | some r =>
+    simp only []
+    have hr := tryStart_inv hts hlt
+    split
+    next hone =>
+      refine ⟨(hother runs' hloop.1).1, ?_⟩
+      intro m hm
+      rcases List.mem_append.mp hm with hm | hm
+      · exact hloop.2 m hm
+      · have : m = r.result := by simpa using hm
+        subst this
+        exact genuine_of_done hr.1 hr.2.1 (by rw [hr.2.2]; simp at hone; exact hone.1)
+    next hone =>
+      split
+      · refine ⟨(hother (runs' ++ [r]) ?_).1, hloop.2⟩
+        intro x hx
+        rcases List.mem_append.mp hx with hx | hx
+        · exact hloop.1 x hx
+        · have : x = r := by simpa using hx
+          subst this; exact hr.1
+      · refine ⟨?_, hloop.2⟩
+        intro k r hr
+        simp only at hr
+        by_cases hk : k = keyOf p e
+        · subst hk; rw [if_pos rfl] at hr; exact hloop.1 r hr
+        · rw [if_neg hk] at hr; exact (hmarked k r hr).1
+
+/-! ## lifting over the stream -/
+
+theorem sorted_lt {seen : List Event} {e : Event} {es : List Event} (h : Sorted (seen ++ e :: es)) :
+    ∀ g ∈ seen, g.idx < e.idx := by
+  intro g hg
+  have := (List.pairwise_append.mp h).2.2 g hg e (List.mem_cons_self)
+  exact this
+
+/-- later events do not affect whether a match is genuine -/
+theorem genuine_mono {p : Pat} {pre post : List Event} {m : Match} (hs : Sorted (pre ++ post))
+    (h : Genuine p pre m = true) : Genuine p (pre ++ post) m = true := by
+  unfold Genuine at h ⊢
+  simp only [Bool.and_eq_true] at h ⊢
+  obtain ⟨⟨⟨⟨h1, h2⟩, h3⟩, h4⟩, h5⟩ := h
+  refine ⟨⟨⟨⟨?_, h2⟩, h3⟩, ?_⟩, h5⟩
+  · have := List.isSublist_iff_sublist.mp h1
+    exact List.isSublist_iff_sublist.mpr (this.trans (List.sublist_append_left pre post))
+  · unfold noNegBetween at h4 ⊢
+    cases hh : m.stack.head? with
+    | none => rfl
+    | some f =>
+      cases hg : m.stack.getLast? with
+      | none => rfl
+      | some l =>
+        rw [hh, hg] at h4
+        simp only [List.all_eq_true] at h4 ⊢
+        intro g hgm
+        rcases List.mem_append.mp hgm with hgm | hgm
+        · exact h4 g hgm
+        · have hl : l.ev ∈ pre :=
+            (List.isSublist_iff_sublist.mp h1).subset (List.mem_map.mpr ⟨l, List.mem_of_getLast? hg, rfl⟩)
+          have := (List.pairwise_append.mp hs).2.2 l.ev hl g hgm
+          have : ¬ g.idx < l.ev.idx := by omega
+          simp [this]
+
+theorem runFrom_ok {p : Pat} {cfg : Cfg} (hfrag : p.inFragment = true) :
+    ∀ (evs seen : List Event) (s : Eng), Sorted (seen ++ evs) → EngInv p seen s →
+    EngInv p (seen ++ evs) (runFrom p cfg s evs).1 ∧
+    ∀ x ∈ (runFrom p cfg s evs).2, ∀ m ∈ x.2, Genuine p (seen ++ evs) m = true := by
+  intro evs
+  induction evs with
+  | nil => intro seen s _ h; simpa [runFrom] using h
+  | cons e es ih =>
+    intro seen s hs h
+    have hlt := sorted_lt hs
+    have hstep := stepEngine_ok (cfg := cfg) hfrag hlt h
+    have hs' : Sorted ((seen ++ [e]) ++ es) := by simpa using hs
+    have hrest := ih (seen ++ [e]) (stepEngine p cfg s e).1 hs' hstep.1
+    unfold runFrom
+    simp only []
+    have heq : seen ++ e :: es = (seen ++ [e]) ++ es := by simp
+    rw [heq]
+    refine ⟨hrest.1, ?_⟩
+    intro x hx m hm
+    rcases List.mem_cons.mp hx with hx | hx
+    · subst hx
+      exact genuine_mono hs' (hstep.2 m hm)
+    · exact hrest.2 x hx m hm
+
 end Varpulis.Sase
